@@ -289,6 +289,7 @@ func DrawConfig(rng *rand.Rand, p Profile, runSeed uint64) RunConfig {
 	}
 	rc.SplitSnapshot = chance(rng, p.PSplitSnapshot)
 	rc.NodeAPI = chance(rng, p.PNodeAPI)
+	rc.ByRef = !p.Follower && !p.StoreSim && chance(rng, 0.12)
 	if p.StoreSim {
 		rc.Nodes = []NodeCfg{rc.Nodes[0]}
 		rc.Voters, rc.Learners = []uint64{rc.Nodes[0].ID}, nil
@@ -1047,6 +1048,11 @@ func (g *Gen) confChange() {
 		if len(outsiders) > 0 {
 			chs = append(chs, one(pb.ConfChangeAddNode, pickOf(outsiders)))
 		}
+		if len(outsiders) > 1 && chance(g.rng, 0.3) {
+			if o := pickOf(outsiders); o != chs[0].Node {
+				chs = append(chs, one(pb.ConfChangeAddNode, o))
+			}
+		}
 		if len(voters) > 1 {
 			v := pickOf(voters)
 			t := pb.ConfChangeRemoveNode
@@ -1054,6 +1060,16 @@ func (g *Gen) confChange() {
 				t = pb.ConfChangeAddLearnerNode
 			}
 			chs = append(chs, one(t, v))
+			// a second voter leaving in the same joint change
+			if len(voters) > 2 && chance(g.rng, 0.35) {
+				if v2 := pickOf(voters); v2 != v {
+					t2 := pb.ConfChangeRemoveNode
+					if chance(g.rng, 0.4) {
+						t2 = pb.ConfChangeAddLearnerNode
+					}
+					chs = append(chs, one(t2, v2))
+				}
+			}
 		}
 		if len(learners) > 0 && chance(g.rng, 0.5) {
 			chs = append(chs, one(pb.ConfChangeAddNode, pickOf(learners)))
@@ -1115,6 +1131,11 @@ func (g *Gen) confChange() {
 		// a second change travelling in the same proposal message
 		var spec2 CCSpec
 		switch {
+		case len(voters) > 2 && chance(g.rng, 0.35):
+			// a voter leaves in the second change of the message
+			v := pickOf(voters)
+			spec2.Changes = []CCSingle{one(pb.ConfChangeRemoveNode, v)}
+			g.removed[v] = true
 		case len(outsiders) > 0 && chance(g.rng, 0.6):
 			spec2.Changes = []CCSingle{one(pb.ConfChangeAddLearnerNode, pickOf(outsiders))}
 		case len(learners) > 0:
